@@ -74,6 +74,13 @@ def gen(rng, nmax=4):
                    [[rng.uniform(-sc, sc) for _ in range(2)] for _ in range(2)])
         noise.append((kind, rate, mat))
     c["noise"] = noise
+    # user-supplied initial density matrix: pure (projector of `init`) or a random *mixed* state
+    # (purity < 1, trace 1) — the Frobenius norm of a mixed state is < 1, unlike its trace
+    if rng.random() < 0.45:
+        d = 2 ** c["n"]
+        w = [rng.uniform(0.2, 1.0) for _ in range(rng.randint(2, 3))]
+        c["init_mixed"] = [(x / sum(w), [rng.gauss(0, 1) for _ in range(d)], [rng.gauss(0, 1) for _ in range(d)]) for x in w]
+        c["init"] = None
     return c
 
 
@@ -86,11 +93,15 @@ def observables(case):
     return [StateResult(evaluation_times=ev), Occupation(evaluation_times=ev), Energy(evaluation_times=ev)]
 
 
-def run_case(case):
+def run_case(case, config=None):
     import torch
     ops = [torch.tensor(m, dtype=torch.complex128) for m in jump_ops(case)]
     return ic.run_recorded(case, dict(krylov_tolerance=case["kt"]), lindblad_ops=ops, noisy=True,
-                           observables=observables(case))
+                           observables=observables(case), config=config)
+
+
+def has_user_state(case):
+    return case.get("init") is not None or bool(case.get("init_mixed"))
 
 
 def oracle(case, out):
@@ -101,8 +112,7 @@ def oracle(case, out):
     d = 2 ** n
     jl = jump_ops(case)
     jumps = [ic.embed(L, q, n) for q in range(n) for L in jl]
-    psi = ic.psi0(case)
-    rho = np.outer(psi, psi.conj())
+    rho = ic.rho0(case)
     exact = [rho]
     pw = ic.piecewise(case)
     for dt, H in pw:
@@ -150,7 +160,9 @@ def oracle(case, out):
 def check(rep: Report, tier: str, seed: int) -> None:
     rep.rule = ("cases = hand-built noisy SequenceData: 1-4 atoms, 1-5 steps, non-uniform grids, per-atom drives, SLM end "
                 "inside a step, 1-3 channels out of dephasing / relaxation / depolarizing / random complex 2x2 eff_noise "
-                "with rates 0.01..5 per us, optional random pure initial density matrix, krylov_tolerance 1e-8..1e-12. "
+                "with rates 0.01..5 per us, optional user-supplied initial density matrix (random pure, or random MIXED with "
+                "purity < 1) run twice with the same config object + bit-for-bit check of the caller's tensor, laser-off "
+                "steps, krylov_tolerance 1e-8..1e-12. "
                 "non-trivial = at least 2 steps")
     rep.assumptions = [
         "positivity of the exact flow (Lindblad's theorem) is not proved: PositivityAssumed; validated by min eigenvalue",
@@ -169,6 +181,17 @@ def check(rep: Report, tier: str, seed: int) -> None:
         case = gen(rng, 4 if i % 4 == 0 else 3)
         try:
             out = run_case(case)
+            if out["status"] == "ok" and has_user_state(case):
+                # the caller's density matrix must be bit-for-bit unchanged, and a second run with the SAME
+                # config / state object must be as right as the first
+                rep.hist("user_state", "mixed" if case.get("init_mixed") else "pure")
+                if out["init_unchanged"] is False:
+                    rep.fail("the caller's initial DensityMatrix tensor was modified in place by the run", ic.ser_case(case))
+                out2 = run_case(case, config=out["config"])
+                rep.count("second_runs_same_config")
+                msg2 = (f"second run failed with {out2['status']}" if out2["status"] != "ok" else oracle(case, out2)[0])
+                if msg2:
+                    rep.fail("second run with the same config object: " + msg2, ic.ser_case(case, second_run=True))
         except Exception as e:
             rep.fail(f"real SVBackendImpl (noisy) raised {type(e).__name__}: {e}", ic.ser_case(case))
             continue
@@ -224,7 +247,11 @@ def replay(rep: Report, path: str) -> int:
         case["noise"] = [tuple(x) for x in case["noise"]]
         try:
             out = run_case(case)
+            if case.get("second_run") and out["status"] == "ok":
+                out = run_case(case, config=out["config"])
             msg = f"run failed with {out['status']}" if out["status"] != "ok" else oracle(case, out)[0]
+            if not msg and out.get("init_unchanged") is False:
+                msg = "the caller's initial DensityMatrix tensor was modified in place by the run"
         except Exception as e:
             msg = f"raised {type(e).__name__}: {e}"
         print("replay:", msg or "property holds on this input now")
